@@ -761,8 +761,9 @@ func c10Probe(sp c10ProbeSpec) c10ProbeObs {
 	}
 	// let the reader finish its acknowledgements: all expected packets written, or timeout
 	c10Until(func() bool {
-		_, calls, _, broken := conn.snapshot()
-		return len(calls) >= len(expected) || broken || runCtx.Err() != nil
+		conn.mu.Lock()
+		defer conn.mu.Unlock()
+		return (len(conn.calls) >= len(expected) && conn.inFlight == 0) || conn.broken || runCtx.Err() != nil
 	})
 	emitted, calls, maxIn, _ := conn.snapshot()
 	cli.Close()
@@ -1023,6 +1024,9 @@ func c10StressReconnect(rng *rand.Rand, iters, nG, nOps int) (reconnects int, no
 			n0 := len(d.conns)
 			d.mu.Unlock()
 			cur := d.current()
+			if cur == nil {
+				break
+			}
 			c10Until(func() bool { cur.mu.Lock(); defer cur.mu.Unlock(); return len(cur.calls) >= 12 || cur.closed })
 			cur.Close()
 			if !c10Until(func() bool { d.mu.Lock(); defer d.mu.Unlock(); return len(d.conns) > n0 }) {
